@@ -31,7 +31,7 @@ ORACLE = {
     "C16": "forward/adjoint vs the explicit formula, dot test, batch vs unbatched for every batch size, tseg/transp_nufft forwarded; recon objective gap vs dense reference per solver, consistent data reproduced, inputs unchanged and reusable",
     "C17": "per-voxel invariants on random / birdcage / low-rank k-space (norm in {1, 0}, zero exactly where eig <= crop incl. crop equal to an observed eigenvalue, coil 0 real >= 0, eig in [0, 1+1e-6]); recovery vs rss-normalised maps at 1e-2",
     "C18": "values in {0,1}; |size/sum - accel| < tol or ValueError; calibration block sampled; nothing outside the ellipse; same arguments + seed => same mask also after other calls; numpy global RNG state identical before/after; watchdog for hangs",
-    "C19": "unitarity 1e-9, zero pulse, composition for all five simulators; design -> simulate round trip through ab2rf (1e-6 on exact pairs) and b2rf / dzrf (1e-3)",
+    "C19": "unitarity 1e-9, zero pulse, composition for all five simulators (abrm also with balanced=True); design -> simulate round trip through ab2rf (1e-6 on exact pairs) and b2rf / dzrf (1e-3); simulate -> design on the real code only: abrm_hp / blochsim at 2n equispaced frequencies, inverse DFT = the coefficients of (A, B) (upper n must vanish: degree < n), ab2rf of them in its own convention must return the pulse (1e-6)",
     "C20": "first/last sample 0, sum(trap) dt = area (1e-9), |g| <= gmax, |dg|/dt <= dgdt (1e-9 slack) over the quantified ranges incl. regime boundary and ceiling ties; min_trap_grad flat-top area; spokes_grad limits and k-space increments inside its domain (every blip fits into one slice-select lobe), what the real code does outside it (np.vstack raises / previous spoke overwritten) recorded as an observation",
 }
 
